@@ -93,7 +93,7 @@ def floordiv(a, b):
     """Python's a // b on ints (b != 0)."""
     if is_sym(a, b):
         return _zfloordiv(a, b)
-    return a // b
+    return a // b if b != 0 else 0      # total natively: contracts guard b != 0
 
 
 def pymod(a, b):
@@ -101,7 +101,7 @@ def pymod(a, b):
     if is_sym(a, b):
         a, b, d, m = _zz(a, b)
         return z3.If(m == 0, z3.IntVal(0), z3.If(b > 0, m, m + b))
-    return a % b
+    return a % b if b != 0 else 0
 
 
 def truncdiv(a, b):
@@ -109,6 +109,8 @@ def truncdiv(a, b):
     if is_sym(a, b):
         a, b, d, m = _zz(a, b)
         return z3.If(m == 0, d, z3.If(b > 0, z3.If(a >= 0, d, d + 1), z3.If(a >= 0, d, d - 1)))
+    if b == 0:
+        return 0
     q = abs(a) // abs(b)
     return q if (a >= 0) == (b > 0) else -q
 
